@@ -5,6 +5,8 @@ N2  `R.update(<comp>)` / `R.extend(<comp>)` / `R.update({k: v for ...})` as a st
                                                     ->  the loop that adds / appends / stores each element
 N3  a name bound once to a generator expression and consumed once as the iterable of another comprehension or `for`
                                                     ->  the generator expression is substituted for the name
+N25 `v = <call>; self.a = v` -> `self.a = <call>`, later `v` reads `self.a`
+N24 `while True: if <t>: break; body` -> `while not <t>: body`
 N23 `x = A if C else B` -> `if C: x = A else: x = B`
 N22 `f = True; while f: body; f = <test>` -> `while True: body; if not <test>: break`
 N21 `R |= {comp}` / `R += [comp]` / `R = set(<gen>)` / `R = [comp]` over a package walk (`*_iter(...)`) -> loop with add/append
@@ -381,6 +383,43 @@ class Normalizer:
 
     # ------------------------------------------------------------------ N1, N2, N4, N5 on statement lists
     def rewrite_blocks(self, tree):
+        # N25: a freshly made value held in a local before it is stored in an attribute: `v = <call>; self.a = v` (adjacent, v bound
+        # once, self.a bound once in the function) -> `self.a = <call>` and every later `v` reads `self.a`
+        for fn in [f for f in ast.walk(tree) if isinstance(f, (ast.FunctionDef, ast.AsyncFunctionDef))]:
+            stores = {}
+            for x in ast.walk(fn):
+                if isinstance(x, ast.Name) and isinstance(x.ctx, ast.Store):
+                    stores[x.id] = stores.get(x.id, 0) + 1
+            attr_stores = {}
+            for x in ast.walk(fn):
+                if isinstance(x, ast.Attribute) and isinstance(x.ctx, ast.Store):
+                    attr_stores[ast.unparse(x)] = attr_stores.get(ast.unparse(x), 0) + 1
+            for n in ast.walk(fn):
+                for field in ('body', 'orelse', 'finalbody'):
+                    seq = getattr(n, field, None)
+                    if not (isinstance(seq, list) and len(seq) >= 2 and isinstance(seq[0], ast.stmt)):
+                        continue
+                    i = 0
+                    while i < len(seq) - 1:
+                        a, b = seq[i], seq[i + 1]
+                        if isinstance(a, ast.Assign) and len(a.targets) == 1 and isinstance(a.targets[0], ast.Name) and isinstance(a.value, ast.Call) \
+                                and isinstance(b, ast.Assign) and len(b.targets) == 1 and isinstance(b.targets[0], ast.Attribute) and isinstance(b.targets[0].value, ast.Name) \
+                                and b.targets[0].value.id == 'self' and isinstance(b.value, ast.Name) and b.value.id == a.targets[0].id \
+                                and stores.get(a.targets[0].id) == 1 \
+                                and not any(isinstance(x, ast.Attribute) and isinstance(x.ctx, ast.Store) and ast.unparse(x) == ast.unparse(b.targets[0])
+                                            for st_ in seq[i + 2:] for x in ast.walk(st_)) \
+                                and not any(isinstance(x, ast.Name) and x.id == a.targets[0].id for x in ast.walk(a.value)):
+                            v = a.targets[0].id
+                            b.value = a.value
+                            del seq[i]
+                            load = copy.deepcopy(b.targets[0])
+                            load.ctx = ast.Load()
+                            sub = _Subst(v, load)
+                            for k_, st_ in enumerate(fn.body):
+                                fn.body[k_] = sub.visit(st_)
+                            self.changes += 1
+                            continue
+                        i += 1
         # N22: a loop steered by a flag: `f = True; while f: body; f = <test>` (the flag assigned once, as the last statement of the body,
         # and read nowhere else) -> `while True: body; if not <test>: break`
         for fn in [f for f in ast.walk(tree) if isinstance(f, (ast.FunctionDef, ast.AsyncFunctionDef))]:
@@ -543,6 +582,12 @@ class Normalizer:
                 leaf = ast.Expr(value=ast.Call(func=ast.Attribute(value=ast.Name(id=s.targets[0].id, ctx=ast.Load()), attr='add' if kind == 'set' else 'append', ctx=ast.Load()),
                                                args=[comp.elt], keywords=[]))
                 return [_loc(init, s)] + _comp_to_loop(comp.generators, [_loc(leaf, s)], s)
+        # N24: `while True: if <t>: break; body` -> `while not <t>: body`  (the loop guard spelled as a leading break)
+        if isinstance(s, ast.While) and isinstance(s.test, ast.Constant) and s.test.value is True and not s.orelse and len(s.body) >= 2 \
+                and isinstance(s.body[0], ast.If) and not s.body[0].orelse and len(s.body[0].body) == 1 and isinstance(s.body[0].body[0], ast.Break):
+            t_ = s.body[0].test
+            cond = t_.operand if isinstance(t_, ast.UnaryOp) and isinstance(t_.op, ast.Not) else _loc(ast.UnaryOp(op=ast.Not(), operand=t_), t_)
+            return [_loc(ast.While(test=cond, body=s.body[1:], orelse=[]), s)]
         # N23: `x = A if C else B` on a plain name -> `if C: x = A else: x = B`
         if isinstance(s, ast.Assign) and len(s.targets) == 1 and isinstance(s.targets[0], ast.Name) and isinstance(s.value, ast.IfExp) \
                 and not any(isinstance(x, (ast.Yield, ast.YieldFrom, ast.NamedExpr)) for x in ast.walk(s.value)):
@@ -603,13 +648,21 @@ class Normalizer:
         if isinstance(s, ast.For) and isinstance(s.iter, (ast.Tuple, ast.List)) and 2 <= len(s.iter.elts) <= 4 and not s.orelse \
                 and isinstance(s.target, ast.Name) and all(isinstance(e, (ast.Name, ast.Attribute)) for e in s.iter.elts):
             v = s.target.id
-            inner = [x for b in s.body for x in ast.walk(b)]
+            body_ = s.body
+            # a leading `if C: continue` guard is `if not C: <rest>`
+            if len(body_) >= 2 and isinstance(body_[0], ast.If) and not body_[0].orelse and len(body_[0].body) == 1 and isinstance(body_[0].body[0], ast.Continue):
+                t0 = body_[0].test
+                neg = t0.operand if isinstance(t0, ast.UnaryOp) and isinstance(t0.op, ast.Not) else _loc(ast.UnaryOp(op=ast.Not(), operand=t0), t0)
+                if isinstance(t0, ast.Compare) and len(t0.ops) == 1 and isinstance(t0.ops[0], (ast.In, ast.NotIn)):
+                    neg = _loc(ast.Compare(left=t0.left, ops=[ast.NotIn() if isinstance(t0.ops[0], ast.In) else ast.In()], comparators=t0.comparators), t0)
+                body_ = [_loc(ast.If(test=neg, body=body_[1:], orelse=[]), body_[0])]
+            inner = [x for b in body_ for x in ast.walk(b)]
             if not any(isinstance(x, (ast.Break, ast.Continue, ast.Yield, ast.YieldFrom)) for x in inner) \
                     and not any(isinstance(x, ast.Name) and x.id == v and isinstance(x.ctx, (ast.Store, ast.Del)) for x in inner):
                 out = []
                 for e in s.iter.elts:
                     sub = _Subst(v, e)
-                    out += [sub.visit(copy.deepcopy(b)) for b in s.body]
+                    out += [sub.visit(copy.deepcopy(b)) for b in body_]
                 return out
         # N5
         if isinstance(s, ast.Assign) and len(s.targets) == 1 and isinstance(s.targets[0], ast.Tuple) and isinstance(s.value, ast.Tuple) \
